@@ -44,6 +44,7 @@ func genPolicy(s *Stream, p *AttemptPlan) {
 	if s.Chance(1, 8) {
 		p.SlowHandler = []time.Duration{35 * time.Second, 65 * time.Second, 10 * time.Minute}[s.N(3)]
 	}
+	p.Checkpoints = s.Chance(1, 6)
 	p.OpenCk = s.Weighted(3, 2, 1)
 	p.SetErrVariant = s.Weighted(2, 1, 1)
 }
